@@ -140,6 +140,39 @@ def h_const_ct(txt_mod, consts, txt_inl, vs, ns, mode, parts=None):
     return body
 
 
+def h_dotted(txt_mod, f, N, mode):
+    """sub-specifications assigned to FIELDS of a variable of a user type (o.x = ...; o.y = ...), referred to by their dotted names: same values
+    as the formula with the definitions written out (f); discrete offline, online, pastified"""
+    f = T(f)
+    vs = sorted(variables(f))
+
+    def body(env):
+        import rtamt
+        A = env.A
+        cls = rtamt.StlDiscreteTimeOfflineSpecification if mode == 'offline' else rtamt.StlDiscreteTimeSpecification
+        sm = cls()
+        sm.import_module('vf.objmsg', 'Msg')
+        sm.declare_var('o', 'Msg')
+        for v in vs:
+            sm.declare_var(v, 'float')
+        sm.spec = txt_mod
+        sm.parse()
+        if mode == 'pastified':
+            sm.pastify()
+        si = dt.make_spec('offline' if mode == 'offline' else 'combined', 'out = ' + text(f), vs, pastify=(mode == 'pastified'))
+        w = dt.trace(env, vs, N)
+        if mode == 'offline':
+            gm, gi = [p[1] for p in dt.offline(sm, w, N)], [p[1] for p in dt.offline(si, w, N)]
+        else:
+            gm, gi = dt.online(sm, w, N), dt.online(si, w, N)
+        env.observe('modular', gm)
+        res = dt.eq_list(A, 'inlined', gm, gi)
+        if mode != 'pastified':
+            res += dt.eq_list(A, 'rho', gm, rho(A, f, w, N))
+        return res
+    return body
+
+
 def h_ct(defs, main, ns, mode, style):
     defs_list = [(n, T(d)) for n, d in defs]
     main = T(main)
@@ -263,6 +296,14 @@ def obligations(tier, rng):
                     if quick and style == 'sub' and body_[0] != 'const':
                         continue
                     out.append(ob('C09', 'dt', 'dt/%s/%s/constant-subspec/lim=%s/out=%s' % (mode, style, text(body_), text(m)), defs=[['lim', body_]], main=m, N=N, mode=mode, style=style))
+    # sub-specifications named after fields of a user-typed variable, several per variable
+    GX1, LX5, GY0_ = ('geq', X, ('const', 1.0)), ('leq', X, ('const', 5.0)), ('geq', Y, ('const', 0.0))
+    for tm, f in [('o.x = (x) >= (1.0);\no.y = once[0,1]((x) <= (5.0));\nout = (o.x) and (o.y)', ('and', GX1, ('once_t', LX5, 0, 1))),
+                  ('o.x = (x) >= (1.0);\no.y = (x) <= (5.0);\no.z = (o.x) and (o.y);\nout = (o.z) or (historically(o.x))', ('or', ('and', GX1, LX5), ('historically', GX1))),
+                  ('o.y = prev((y) >= (0.0));\no.x = (x) >= (1.0);\nout = (o.x) since (o.y)', ('since', GX1, ('prev', GY0_))),
+                  ('o.x = (x) >= (1.0);\nout = (o.x) or (prev(o.x))', ('or', GX1, ('prev', GX1)))]:
+        for mode in ('offline', 'online', 'pastified'):
+            out.append(ob('C09', 'dotted', 'dotted-subspec/%s/%s' % (mode, tm.replace('\n', ' ')), txt_mod=tm, f=f, N=N, mode=mode))
     # constants as operands and as bounds
     const_cases = [
         ('out = (x) >= (c)', [['c', 'float', '1.5']], 'out = (x) >= (1.5)', ('geq', X, C15)),
